@@ -16,7 +16,7 @@ SELF_IDL = dict(test="TestSelfIDL", checks=2000)
 PLAN = {
     "C01": dict(
         quick=[dict(test="TestC01Rapid", checks=3000), *shards("TestC01Enum", 4)],
-        thorough=[*shards("TestC01Rapid", 12, checks=20000), *shards("TestC01Enum", 4)],
+        thorough=[*shards("TestC01Rapid", 12, checks=20000), *shards("TestC01Enum", 4), dict(fuzz="FuzzC01Rapid", seconds=60)],
     ),
     "C03": dict(
         quick=[dict(test="TestC03Rapid", checks=1200), *shards("TestC03Matrix", 4)],
@@ -28,7 +28,7 @@ PLAN = {
     ),
     "C04": dict(
         quick=[dict(test="TestC04Rapid", checks=4000), *shards("TestC04Enum", 4)],
-        thorough=[*shards("TestC04Rapid", 12, checks=40000), *shards("TestC04Enum", 4)],
+        thorough=[*shards("TestC04Rapid", 12, checks=40000), *shards("TestC04Enum", 4), dict(fuzz="FuzzC04Rapid", seconds=60)],
     ),
     "C10": dict(
         quick=[dict(test="TestC10Rapid", checks=1500), *shards("TestC10Aborts", 6)],
@@ -36,7 +36,7 @@ PLAN = {
     ),
     "C05": dict(
         quick=[SELF_IDL, dict(test="TestC05Rapid", checks=20000), *shards("TestC05Enum", 4)],
-        thorough=[SELF_IDL, *shards("TestC05Rapid", 12, checks=200000), *shards("TestC05Enum", 16)],
+        thorough=[SELF_IDL, *shards("TestC05Rapid", 12, checks=200000), *shards("TestC05Enum", 16), dict(fuzz="FuzzC05Rapid", seconds=60)],
     ),
     "C06": dict(
         quick=[SELF_IDL, dict(test="TestC06Rapid", checks=20000), *shards("TestC06Mutants", 6), *shards("TestC06Seqs", 4), *shards("TestC06Bytes", 2)],
@@ -128,13 +128,13 @@ CLAIM = {
         text="Model-based property test: generated call sequences x handler scripts x segmentations x concurrent connections are run against the "
              "real accept loop (fake listener + net.Pipe, and abstract unix sockets) and every byte read plus the handler invocation log is "
              "compared with a reference model of the reply discipline; a finite slice (flags x short scripts x cut plans) is enumerated exhaustively.",
-        ref="DESIGN.md section 4, C01", technique="model-based property testing (rapid) with a per-connection reference model; bounded-exhaustive slice",
+        ref="DESIGN.md section 4, C01", technique="model-based property testing (rapid) with a per-connection reference model; bounded-exhaustive slice; coverage-guided fuzzing of the generator's draw stream (rapid.MakeFuzz, thorough tier)",
         note="white-box accessors injected by -overlay (install listener, read active count); connection interleavings are scheduler-sampled"),
     "C04": dict(
         text="Model-based property test of routing: generated registries x generated method strings (structural edits of registered names, "
              "arbitrary strings, wrong-shape frames) against a routing model, observing the reply frames and which scripted dispatcher logged "
              "which method name; all strings up to length 5 over {a,b,.} x all subsets of a 4-name registry enumerated exhaustively.",
-        ref="DESIGN.md section 4, C04", technique="model-based property testing (rapid) + bounded-exhaustive enumeration; reference router as oracle",
+        ref="DESIGN.md section 4, C04", technique="model-based property testing (rapid) + bounded-exhaustive enumeration; reference router as oracle; coverage-guided fuzzing of the generator's draw stream (rapid.MakeFuzz, thorough tier)",
         note="uses the shared protocol executor and reference model of C01"),
     "C10": dict(
         text="Fault enumeration by generated streams: mutated / wrong-shape / random client byte streams with an abort at generated offsets "
@@ -147,7 +147,7 @@ CLAIM = {
         text="Generated-input search with a round-trip oracle: every tree of a bounded-exhaustive space and tens of thousands of random "
              "trees are printed under fixed and random layouts and must parse back to exactly that tree (order, names, constructors, "
              "combined member list, verbatim description, doc blocks). Exploration, not proof: held on everything generated.",
-        ref="DESIGN.md section 4, C05", technique="property-based testing (rapid) + bounded-exhaustive enumeration; round-trip oracle tree -> text -> tree",
+        ref="DESIGN.md section 4, C05", technique="property-based testing (rapid) + bounded-exhaustive enumeration; round-trip oracle tree -> text -> tree; coverage-guided fuzzing of the generator's draw stream (rapid.MakeFuzz, thorough tier)",
         note="trusts the harness's own AST/printer (self-checked each run) and the grammar reading stated in DESIGN.md (published grammar intersected with the repository's tests)"),
     "C06": dict(
         text="Two-sided oracle over generated strings: everything the parser accepts must re-print to the input up to whitespace/comments and "
@@ -260,7 +260,7 @@ CLAIM.update({
 
 PLAN["C13"] = dict(
     quick=[dict(test="TestC13Rapid", checks=800), dict(test="TestC13Resolver", checks=400)],
-    thorough=[*shards("TestC13Rapid", 12, checks=5000), *shards("TestC13Resolver", 4, checks=3000)],
+    thorough=[*shards("TestC13Rapid", 12, checks=5000), *shards("TestC13Resolver", 4, checks=3000), dict(fuzz="FuzzC13Rapid", seconds=60)],
 )
 
 LEVEL.update({"C13": "exploration"})
@@ -284,7 +284,7 @@ CLAIM.update({
         text="Stateful model-based test: generated register/duplicate/listen/register-while-listening/query/shutdown/re-listen histories on one "
              "Service object, compared after every query with a model of the registry through the real client helpers; generated resolver tables "
              "through the Resolver helpers.",
-        ref="DESIGN.md section 4, C13", technique="stateful model-based property testing (rapid-generated operation histories, model = ordered registry)",
+        ref="DESIGN.md section 4, C13", technique="stateful model-based property testing (rapid-generated operation histories, model = ordered registry); coverage-guided fuzzing of the history generator's draw stream (rapid.MakeFuzz, thorough tier)",
         note="histories are generated as explicit operation lists so that each case is a serialisable, replayable value"),
 })
 
